@@ -530,6 +530,14 @@ func ruleC11Fanout(w *World, r *Report) {
 		chanParam := false
 		for _, s := range sends {
 			v := throughFreeVar(s.Chan)
+			// a worker that is a named function gets the channel as an argument of the go statement
+			if pv, isP := v.(*ssa.Parameter); isP && pv.Parent() == cl {
+				for k, cp := range cl.Params {
+					if cp == pv && k < len(gos[0].Call.Args) {
+						v = gos[0].Call.Args[k]
+					}
+				}
+			}
 			for _, p := range g.Params {
 				if v == ssa.Value(p) {
 					chanParam = true
